@@ -309,8 +309,23 @@ def case_term(r):
     return f'(Build_case {sl.tree_term(a)} {sl.tree_term(b)} {sl.b(bool(r["crashed"]))} [{objs}])'
 
 
+def _nodes(t):
+    if t[0] == 'leaf':
+        return 1
+    if t[0] == 'kvp':
+        return 1 + _nodes(t[2]) + _nodes(t[3])
+    return 1 + sum(_nodes(c) for c in t[-1])
+
+
+CORR_LIMIT = 1600       # |a| * |b| in nodes: the model builds the full matrix of child states at every level
+
+
+def corr_wanted(r):
+    return bool(r['root'] and r['a'] is not None and _nodes(r['a']) * _nodes(r['b']) <= CORR_LIMIT)
+
+
 def ccase_term(r):
-    return f'(Build_ccase {case_term(r)} {sl.b(bool(r["root"] and r["a"] is not None))})'
+    return f'(Build_ccase {case_term(r)} {sl.b(corr_wanted(r))})'
 
 
 # ------------------------------------------------------------------ generators
@@ -446,6 +461,8 @@ def evaluate(run, wd, st, items, tag='cases'):
         for c, evs in o['objs']:
             stats['events'] += len(evs)
             stats['classes'][c] = stats['classes'].get(c, 0) + 1
+        if o['root'] and o['a'] is not None and not corr_wanted(o):
+            stats['corr_skipped_large'] = stats.get('corr_skipped_large', 0) + 1
         if o['objs'] and o['root']:
             c = o['objs'][0][0]
             stats['root_classes'][c] = stats['root_classes'].get(c, 0) + 1
@@ -544,6 +561,7 @@ def check(tier, seed):
         run.cov['runs_that_raised'] = stats['crashed']
         run.cov['max_calls_per_item'] = stats['max_calls']
         run.cov['oversized_skipped'] = stats['oversized_skipped']
+        run.cov['corr_skipped_large_pairs'] = stats.get('corr_skipped_large', 0)
         run.cov['known_finding_cases'] = {k: len(v) for k, v in reported.items()}
         run.cov['modelled_classes'] = MODELLED
         run.cov['trace_only_classes'] = TRACE_ONLY
